@@ -360,7 +360,7 @@ impl<C: CaseT> DynSub for Sub<C> {
         self.name
     }
     fn njobs(&self, tier: Tier, quick_mult: u32) -> usize {
-        let n = tier.pick(self.cases.0 * quick_mult, self.cases.1) as usize;
+        let n = tier.pick(self.cases.0 * quick_mult, self.cases.1.max(self.cases.0 * quick_mult * 8)) as usize;
         let by_size = (n + 49) / 50;
         let mut j = by_size.clamp(1, 16);
         if self.enumerate.is_some() {
@@ -397,7 +397,7 @@ impl<C: CaseT> DynSub for Sub<C> {
             return rep;
         }
         let rjobs = if self.enumerate.is_some() { njobs - 1 } else { njobs };
-        let total = tier.pick(self.cases.0 * env.quick_mult, self.cases.1) as usize;
+        let total = tier.pick(self.cases.0 * env.quick_mult, self.cases.1.max(self.cases.0 * env.quick_mult * 8)) as usize;
         let mine = total / rjobs + if job < total % rjobs { 1 } else { 0 };
         if mine == 0 {
             return rep;
